@@ -28,6 +28,7 @@ type Spec struct {
 	Block   int              `json:"block"`
 	Kind    string           `json:"kind"` // singles | doubles | inflight | handmade
 	WrongExt string          `json:"wrong_ext,omitempty"`
+	NBlocks  int             `json:"n_blocks,omitempty"` // singles: how many blocks the document's enumeration has
 	Curated  int             `json:"curated,omitempty"` // PDF: 1 or 2 = one of the hand-picked layouts, 0 = drawn from the seed
 }
 
@@ -220,6 +221,7 @@ func (p *Prop) Generate(base uint64, index int, env *sim.Env) *sim.Case {
 	switch {
 	case block < nBlocks:
 		sp.Kind = "singles"
+		sp.NBlocks = nBlocks
 		c.Mode = "singles"
 		for _, f := range all[block*blockSize : sim.MinInt(len(all), (block+1)*blockSize)] {
 			sp.Sets = append(sp.Sets, []faults.Fault{f})
@@ -381,6 +383,13 @@ func (p *Prop) Execute(c *sim.Case, env *sim.Env) *sim.Result {
 		}
 	}
 	res.Count("evaluations", int64(nEval))
+	if sp.Kind == "singles" {
+		// how much of each document's exhaustive enumeration the batch covered
+		res.Count("enum.blocks_done."+sp.Format, 1)
+		if sp.Block == 0 {
+			res.Count("enum.blocks_needed."+sp.Format, int64(sp.NBlocks))
+		}
+	}
 	res.Fingerprint = fmt.Sprintf("%s/%d/%s/%d/%s", sp.Format, sp.DocSeed, sp.Kind, sp.Block, sim.Dump(sp.Sets)[:sim.MinInt(60, len(sim.Dump(sp.Sets)))])
 	res.Nontrivial = nEval > 0
 	var sample []string
